@@ -223,11 +223,27 @@ def run(ck, F, tier):
     NOI = r"(?!c_api::|simulation::puncturing::Puncturer::new|cli::ber::parse_puncturing_pattern).*"
     Audit(ck, F, "H3", "c_api::decoder::Decoder::new", ["alist", "implementation", "puncturing"], reviewed=rev, no_inline=NOI, contracts="NONE", entry_label="Decoder::new").run()
     Audit(ck, F, "H3", "c_api::encoder::Encoder::new", ["alist", "puncturing"], reviewed=dict(rev), no_inline=NOI, contracts="NONE", entry_label="Encoder::new").run()
+    pattern_non_empty(ck, F, "H3")
+
+
+def pattern_non_empty(ck, F, rule):
+    """parse_puncturing_pattern returns Ok(v) only with v non-empty: one unconditional push per item of `str::split`, which yields
+    at least one item for every input (split_terminator / split_whitespace / filters can yield none)."""
     pb = F.body("cli::ber::parse_puncturing_pattern")
     tp = Tracer(F, r"std::vec::Vec::<T, A>::push|std::vec::Vec::<T>::push", mode="int")
     env = {}
     tp.bind(pb.params[0], var("s"), env)
-    rv = tp.eval(pb.value, env)
+    tp.eval(pb.value, env)
     pushes = [e for e in tp.events if e.callee.endswith("::push")]
-    okp = len(pushes) == 1 and len(pushes[0].loops) == 1 and "split" in repr(pushes[0].loops[0]) and not pushes[0].guards
-    ck.inst("H3", "pattern-non-empty", okp, pb.span, "parse_puncturing_pattern pushes one element for every item of s.split(','), unconditionally (so Ok(v) has v.len() >= 1)")
+    okp = False
+    src = None
+    if len(pushes) == 1 and len(pushes[0].loops) == 1 and not pushes[0].guards:
+        lp = pushes[0].loops[0]
+        d = lp[2] if lp[0] == "iter" else None
+        if d and d[0] == "elems":
+            a = single_atom(d[1]) if isinstance(d[1], Poly) else None
+            src = atom_fn(a) if a else None
+            okp = src == "core::str::<impl str>::split" and atom_args(a)[0] == var("s")
+    ck.inst(rule, "pattern-non-empty", okp, pb.span,
+            "parse_puncturing_pattern pushes one element for every item of s.split(..) (never empty), unconditionally, so Ok(v) has v.len() >= 1 and "
+            "Puncturer::new's assert!(!pattern.is_empty()) cannot fire: iterator source %s" % src)
